@@ -346,17 +346,23 @@ Proof.
   induction ops as [|v rest IH]; intros c hs l H; simpl in H.
   - inversion H. constructor.
   - destruct (dec_gop v) as [o|]; [|discriminate].
+    destruct (negb match o with GBack cb => wf_gback cb c | _ => true end); [discriminate|].
     destruct (gstep c o _) as [[c' obs] x] eqn:Es.
+    destruct (negb (wf_gstate c')); [discriminate|].
+    assert (Hent : entry_ok (obs, x)).
+    { destruct o as [algo retry sc|id b|id d|g|cb]; simpl in Es.
+      - pose proof (gslb_total algo (hd 0 hs) retry sc c) as Hr. unfold gres in Hr.
+        destruct (gslb_balance algo (hd 0 hs) retry sc c) as [[[c2 y] sub] rt]. simpl in Hr. inversion Es; subst. simpl.
+        split; [apply returned_wf; exact Hr|]. eexists. eexists. eexists. reflexivity.
+      - inversion Es; subst. reflexivity.
+      - inversion Es; subst. reflexivity.
+      - destruct (greload g c) as [c2 e]. inversion Es; subst. reflexivity.
+      - inversion Es; subst. reflexivity. }
+    destruct (match x with Some (_, RErr c99) => c99 =? 99 | _ => false end).
+    { inversion H; subst. constructor; [exact Hent|constructor]. }
     destruct (run_gops c' rest _) as [l'|] eqn:E; [|discriminate]. inversion H; subst.
-    constructor; [|eapply IH; exact E].
-    destruct o as [algo retry sc|id b|id d]; simpl in Es.
-    + pose proof (gslb_total algo (hd 0 hs) retry sc c) as Hr. unfold gres in Hr.
-      destruct (gslb_balance algo (hd 0 hs) retry sc c) as [[[c2 y] sub] rt]. simpl in Hr. inversion Es; subst. simpl.
-      split; [apply returned_wf; exact Hr|]. eexists. eexists. eexists. reflexivity.
-    + inversion Es; subst. reflexivity.
-    + inversion Es; subst. reflexivity.
+    constructor; [exact Hent|eapply IH; exact E].
 Qed.
-
 Theorem model_satisfies_prop : forall i, kf_C05 i = 0 -> prop_C05 i (run_C05 i) = true.
 Proof.
   intros i Hk. unfold kf_C05 in Hk. unfold run_C05, prop_C05.
@@ -550,15 +556,24 @@ Proof.
   induction ops as [|v rest IH]; intros c hs l H; simpl in H.
   - inversion H. reflexivity.
   - destruct (dec_gop v) as [o|]; [|discriminate].
+    destruct (negb match o with GBack cb => wf_gback cb c | _ => true end); [discriminate|].
     destruct (gstep c o _) as [[c' obs] x] eqn:Es.
+    destruct (negb (wf_gstate c')); [discriminate|].
+    assert (Hg : match x with Some (_, y) => good_res y | None => True end).
+    { destruct o as [algo retry sc|id b|id d|g|cb]; simpl in Es.
+      - pose proof (gslb_total algo (hd 0 hs) retry sc c) as Hr. unfold gres in Hr.
+        destruct (gslb_balance algo (hd 0 hs) retry sc c) as [[[c2 y] sub] rt]. simpl in Hr. inversion Es; subst.
+        apply returned_good. exact Hr.
+      - inversion Es; subst. exact I.
+      - inversion Es; subst. exact I.
+      - destruct (greload g c) as [c2 e]. inversion Es; subst. exact I.
+      - inversion Es; subst. exact I. }
+    assert (Hfb : forall l', first_bad l' = 0 -> first_bad ((obs, x) :: l') = 0).
+    { intros l' Hl. simpl. destruct x as [[a y]|]; [|exact Hl]. destruct Hg as [Hp Hf]. destruct y; try congruence; exact Hl. }
+    destruct (match x with Some (_, RErr c99) => c99 =? 99 | _ => false end).
+    { inversion H; subst. apply Hfb. reflexivity. }
     destruct (run_gops c' rest _) as [l'|] eqn:E; [|discriminate]. inversion H; subst.
-    destruct o as [algo retry sc|id b|id d]; simpl in Es.
-    + pose proof (gslb_total algo (hd 0 hs) retry sc c) as Hr. unfold gres in Hr.
-      destruct (gslb_balance algo (hd 0 hs) retry sc c) as [[[c2 y] sub] rt]. simpl in Hr. inversion Es; subst.
-      apply returned_good in Hr. destruct Hr as [Hp Hf]. simpl.
-      destruct y; try congruence; eapply IH; exact E.
-    + inversion Es; subst. simpl. eapply IH; exact E.
-    + inversion Es; subst. simpl. eapply IH; exact E.
+    apply Hfb. eapply IH; exact E.
 Qed.
 Theorem kf_zero : forall i, kf_C05 i = 0.
 Proof.
@@ -592,3 +607,13 @@ Lemma ex_wire_gslb :
   run_C05 i = VL [VL [VZ 0; VL [VZ 0; VZ 1]; VZ 0; VZ 0; VL [VL [VL [VL [VZ 1; VZ 100; VZ 100]]; VZ 0]; VL [VL [VL [VZ 2; VZ 100; VZ 100]]; VZ 0]]];
                   VL [VZ 0; VL [VZ 0; VZ 2]; VZ 1; VZ 1; VL [VL [VL [VL [VZ 1; VZ 100; VZ 100]]; VZ 0]; VL [VL [VL [VZ 2; VZ 100; VZ 100]]; VZ 0]]]].
 Proof. vm_compute. reflexivity. Qed.
+(* after a REJECTED reload (all weights 0: overwritten in place, totalWeight 3 kept) Balance still finds a sub-cluster:
+   the walk falls back to the last one (1) and returns its backend 2 *)
+Lemma ex_rejected_reload :
+  let i := VL [VL [VZ 7; VL [VL [VZ 0; VZ 1; VL [VL [VZ 1; VZ 1]]]; VL [VZ 1; VZ 2; VL [VL [VZ 2; VZ 1]]]]; VZ 1; VZ 1];
+               VL [VL [VZ 7; VL [VL [VZ 0; VZ 0]; VL [VZ 1; VZ 0]]]; VL [VZ 6; VZ 1; VZ 0; VB [1]; VL []]]] in
+  match run_C05 i with
+  | VL [VL [VZ 1; _]; VL [_; VL [VZ 0; VZ 2]; VZ 1; VZ 0; _]] => True
+  | _ => False
+  end.
+Proof. vm_compute. exact I. Qed.
